@@ -154,3 +154,40 @@ func TestRaceWorkloads(t *testing.T) {
 		}
 	}
 }
+
+// TestRaceCachePersistedMerges: CachePersisted keeps the persisted stack as the clean section while
+// the merger may still be using that very stack as the base it merges against; many short rounds
+// with Merge operands on fresh keys keep merger cycles and persister publishes overlapping.
+func TestRaceCachePersistedMerges(t *testing.T) {
+	dir, _ := os.MkdirTemp("", "racework")
+	defer os.RemoveAll(dir)
+	so := moss.StoreOptions{CollectionOptions: moss.CollectionOptions{
+		MergeOperator: &moss.MergeOperatorStringAppend{Sep: ":"}, CachePersisted: true, MaxPreMergerBatches: 4}}
+	s, c, err := moss.OpenStoreCollection(dir, so, moss.StorePersistOptions{NoSync: true})
+	if err != nil {
+		t.Fatal(err)
+	}
+	var wg sync.WaitGroup
+	for w := 0; w < 4; w++ {
+		wg.Add(1)
+		go func(w int) {
+			defer wg.Done()
+			for i := 0; i < 500; i++ {
+				b, err := c.NewBatch(0, 0)
+				if err != nil {
+					return
+				}
+				b.Merge([]byte(fmt.Sprintf("w%d-m%d", w, i%40)), []byte("x"))
+				b.Set([]byte(fmt.Sprintf("w%d-s%d", w, i%13)), []byte("y"))
+				c.ExecuteBatch(b, moss.WriteOptions{})
+				b.Close()
+				if i%7 == 0 {
+					c.Get([]byte(fmt.Sprintf("w%d-m%d", (w+1)%4, i%40)), moss.ReadOptions{})
+				}
+			}
+		}(w)
+	}
+	wg.Wait()
+	c.Close()
+	s.Close()
+}
